@@ -57,6 +57,7 @@ type LexOpts struct {
 	MaxRules   int
 	Macros     bool
 	NoNullable bool // guarantee that no rule matches the empty string
+	NullablePct int // otherwise: percent of rules left nullable when they come out nullable (default 10)
 }
 
 type lexGen struct {
@@ -234,7 +235,11 @@ func RandomLexer(r *rng.R, o LexOpts) (*lexspec.Spec, Alphabet) {
 			if i > 0 && r.Chance(1, 4) {
 				x = lexspec.Cat{Parts: []lexspec.Rx{rules[r.Intn(len(rules))].Rx, g.atom()}}
 			}
-			if o.NoNullable || r.Chance(9, 10) {
+			np := o.NullablePct
+			if np == 0 {
+				np = 10
+			}
+			if o.NoNullable || r.Intn(100) >= np {
 				x = g.nonNullable(x)
 			}
 			rule := lexspec.Rule{Rx: x}
